@@ -83,7 +83,22 @@ func specialNumbers() []cty.Value {
 	}
 }
 
+// longStrings share long prefixes (63, 64, 100, 300 bytes) and differ only at the
+// tail, so that any hashing or ordering that looks at a bounded part of a
+// string cannot tell them apart.
+func longStrings() []cty.Value {
+	k63, k64 := strings.Repeat("k", 63), strings.Repeat("k", 64)
+	e100 := strings.Repeat("\u00e9", 50)
+	z300 := strings.Repeat("zy;", 100)
+	return []cty.Value{cty.StringVal(k64 + "a"), cty.StringVal(k64 + "b"), cty.StringVal(k64), cty.StringVal(k63 + "a"), cty.StringVal(k63 + "b"),
+		cty.StringVal(e100 + "1"), cty.StringVal(e100 + "2"), cty.StringVal(z300 + "p"), cty.StringVal(z300 + "q")}
+}
+
 func specialStrings() []cty.Value {
+	return append(shortStrings(), longStrings()...)
+}
+
+func shortStrings() []cty.Value {
 	return []cty.Value{cty.StringVal(""), cty.StringVal("a"), cty.StringVal("é"), cty.StringVal("é"), cty.StringVal("A"), cty.StringVal("ab"),
 		cty.StringVal("Å"), cty.StringVal("Å"), cty.StringVal("Å"), cty.StringVal("\"a\""), cty.StringVal("a;b"), cty.StringVal("각"), cty.StringVal("각")}
 }
@@ -135,11 +150,17 @@ func buildPool(r *core.Rand, p poolDef, size int) []cty.Value {
 			}
 		}
 	case ty.IsObjectType():
+		for _, ls := range longStrings() {
+			add(cty.ObjectVal(map[string]cty.Value{"a": nums[4], "b": ls}))
+		}
 		for i, n := range nums {
 			add(cty.ObjectVal(map[string]cty.Value{"a": n, "b": strs[i%len(strs)]}))
 		}
 		add(cty.ObjectVal(map[string]cty.Value{"a": cty.NullVal(cty.Number), "b": cty.NullVal(cty.String)}))
 	case ty.IsTupleType():
+		for _, ls := range longStrings() {
+			add(cty.TupleVal([]cty.Value{nums[4], ls}))
+		}
 		for i, n := range nums {
 			add(cty.TupleVal([]cty.Value{n, strs[(i*3)%len(strs)]}))
 		}
